@@ -1056,7 +1056,7 @@ class Gen:
             e.w(pad + "[requires: ")
             if t.inline:
                 # attributes in the body of an inline type are attributes of the *field*
-                fld = [f for f in t.parent.fields if f.ftype is t][0]
+                fld = [f for f in t.parent.fields if f.ftype is t and f.type_names is None][0]
                 self.f("inline_body_attr")
                 if self.r.random() < 0.7:
                     self.use_path(e, ["this"], t.parent, attr_field=fld)
